@@ -515,3 +515,8 @@ def run(repo: Repo, rep: Report, tier: str) -> None:
                       f"{len(paths)} key combinations, none has both" if not bad12 else
                       f"a path stores {list(bad12[0])}: with the left operand a constant and the right one a signal the constant is ignored, `5 < a` is evaluated as `signal-0 < a`", f12.loc(init))
     rep.floor("C01-R12", "condition dicts analysed", n12, 2)
+
+    # ---------------- R13 --------------------------------------------------------------
+    from .shared import borrow as _borrow1c
+    _borrow1c(repo, rep, "C15", "C15-R5", "C01-R13", "inside a function body a name means the parameter: compile-time folding of an expression looks a name up among the parameters "
+              "first and stops there, so a Signal parameter is never replaced by an outer int of the same name", floor=1)
